@@ -651,8 +651,8 @@ fn parse_escape_code(l: &mut Lexer<'_>) -> core::result::Result<char, Option<Err
             match l.stream.next() {
                 None => return Err(None),
                 Some((_, '{')) => (),
-                Some((_, unexpected_char)) => {
-                    let span = span_one(l, index, unexpected_char);
+                Some((position, unexpected_char)) => {
+                    let span = span_one(l, position, unexpected_char);
                     let kind = LexErrorKind::UnicodeEscapeMissingBrace { position: index };
                     return error(kind, span);
                 }
